@@ -11,6 +11,22 @@ import traceback
 from . import core
 
 
+def guarded(ctx, mod, name, params):
+    """An exception that escapes from the code under test (innermost frame inside the artap tree) while a workload
+    drives it with in-domain inputs is a violation with the traceback as witness; anything else is a harness error."""
+    try:
+        mod.run_case(ctx, name, params)
+    except Exception as e:
+        tb = traceback.extract_tb(e.__traceback__)
+        last = tb[-1] if tb else None
+        if last is not None and os.path.abspath(last.filename).startswith(core.TREE + os.sep):
+            ctx.violation("exception/%s/%s" % (type(e).__name__, last.name),
+                          "the code under test raised %r in %s (%s:%s) on an in-domain workload" % (e, last.name, os.path.basename(last.filename), last.lineno),
+                          {"traceback": traceback.format_exc()[-1500:]})
+        else:
+            raise
+
+
 def run_cases(ctx, mod, only=None):
     if hasattr(mod, "setup"):
         mod.setup(ctx)
@@ -19,14 +35,14 @@ def run_cases(ctx, mod, only=None):
             name, params = only
             ctx.current_case = {"workload": name, "params": params}
             ctx.cases_run += 1
-            mod.run_case(ctx, name, params)
+            guarded(ctx, mod, name, params)
         else:
             for i, (name, params) in enumerate(mod.cases(ctx)):
                 if i % ctx.nshards != ctx.shard:
                     continue
                 ctx.current_case = {"workload": name, "params": params}
                 ctx.cases_run += 1
-                mod.run_case(ctx, name, params)
+                guarded(ctx, mod, name, params)
                 # stop early once a few distinct new mechanisms are on record
                 if len(ctx.viol_keys) >= 25:
                     break
